@@ -860,3 +860,63 @@ func ruleC17Status(c *Ctx) {
 	}
 	c.Floor(rule, 14)
 }
+
+// C09-PROBE / liveness: the controller decides whether a signalled leader (a replica that is
+// closed by design during bootstrap) is still reachable by GET /ping; the probe answers whatever
+// the replica's state.
+func ruleLivenessProbe(rule string) ruleFn {
+	return func(c *Ctx) {
+		c.Doc(rule, "the replica's GET /ping handler answers unconditionally (no branch, no status other than the implicit 200): the election's reachability probe must not depend on the replica's state")
+		rt := c.Anchor(rule, "replica/rest.NewRouter")
+		if rt == nil {
+			return
+		}
+		R := NewRenderer(rt)
+		found := false
+		for _, in := range CallsTo(rt, "(*github.com/gorilla/mux.Route).Handler") {
+			cl := in.(*ssa.Call)
+			if !strings.Contains(R.V(cl.Call.Args[0]), `"/ping"`) {
+				continue
+			}
+			found = true
+			var h *ssa.Function
+			v := cl.Call.Args[1]
+			for i := 0; i < 4 && h == nil; i++ {
+				switch x := v.(type) {
+				case *ssa.MakeInterface:
+					v = x.X
+				case *ssa.ChangeType:
+					v = x.X
+				case *ssa.MakeClosure:
+					h, _ = x.Fn.(*ssa.Function)
+				case *ssa.Function:
+					h = x
+				default:
+					i = 4
+				}
+			}
+			key := "replica/rest.NewRouter | /ping answers unconditionally"
+			if h == nil {
+				c.Undecided(rule, key, c.P.InstrPos(in), "cannot resolve the /ping handler")
+				continue
+			}
+			branches, status := 0, 0
+			eachInstr(h, func(x ssa.Instruction) {
+				if _, ok := x.(*ssa.If); ok {
+					branches++
+				}
+				if callMatches(x, "invoke:WriteHeader") {
+					status++
+				}
+			})
+			if branches == 0 && status == 0 {
+				c.OK(rule, key, c.P.Pos(h.Pos()), "single path, implicit 200", false)
+			} else {
+				c.Bad(rule, key, c.P.Pos(h.Pos()), fmt.Sprintf("the liveness probe is conditional (%d branch(es), %d explicit status): a replica that is closed by design during bootstrap would be judged unreachable and dropped from the election", branches, status), nil)
+			}
+		}
+		if !found {
+			c.Bad(rule, "replica/rest.NewRouter | /ping route", "", "no GET /ping route", nil)
+		}
+	}
+}
